@@ -30,6 +30,8 @@ type Tape struct {
 	Conf          gk.ConfModel  `json:"conf"`
 	Cred          string        `json:"cred"` // keytab | password
 	AssumePreauth bool          `json:"assume_preauth,omitempty"`
+	OneKeyOnly    bool          `json:"one_key_only,omitempty"`  // the keytab user has a key for the first configured ticket etype only (an aes256-only account, say)
+	PreauthPref   int           `json:"preauth_pref,omitempty"`  // preferred_preauth_types in krb5.conf (0 = the first ticket etype)
 	UserKvno      int           `json:"user_kvno,omitempty"` // key version of the keytab user (0 = 5); beyond 8 bits the keytab carries it in its 32-bit trailer
 	DisableFAST   bool          `json:"disable_fast,omitempty"`
 	Policy        refkdc.Policy `json:"policy"`
@@ -125,6 +127,12 @@ func Gen(caseID, tier string) (json.RawMessage, error) {
 	tp.AssumePreauth = r.Chance(1, 5)
 	if r.Chance(1, 3) {
 		tp.UserKvno = r.PickInt(1, 255, 256, 300, 65537)
+	}
+	if tp.Cred == "keytab" && !tp.AssumePreauth && r.Chance(1, 3) {
+		// the account has one key only, and krb5.conf prefers another type for pre-authentication:
+		// what the client has to use is what it negotiated with the KDC
+		tp.OneKeyOnly = true
+		tp.PreauthPref = r.PickInt(17, 18, 23, 16, 19, 20)
 	}
 	tp.DisableFAST = r.Chance(1, 3)
 	p := &tp.Policy
